@@ -168,5 +168,5 @@ def phases(tier):
   return [
       {'name': 'pipeline', 'kind': 'hyp',
        'strategy': lambda: engine.cases(model_kw=kw, allow_skip=False),
-       'run': check_case, 'examples': int((60000 if big else 3000) * k)},
+       'run': check_case, 'examples': int((60000 if big else 5000) * k)},
   ]
